@@ -504,6 +504,10 @@ class Concatenator(Group):  # pylint: disable=too-many-public-methods
                 object_ids.remove(as_str_if_uuid(entity.uid).encode())
                 self.concatenated_object_ids = object_ids
 
+            for field in ("surveys", "trace", "property_groups"):
+                if self.fetch_index(entity, field) is not None:
+                    self.update_array_attribute(entity, field, remove=True)
+
         elif isinstance(entity, ConcatenatedPropertyGroup):
             # Remove all data within the group
             if entity.properties is not None and len(entity.properties) > 0:
